@@ -127,9 +127,7 @@ Definition doc_link_b (w : nat) (o : fopts) (i : ir) : bool :=
   end.
 
 Definition link_witnesses : list (fopts * ir) :=
-  [ (* prose ends with a backslash: multiline() strips it *)
-    (lw_inline, lw_ir (mkG (Has (L "dir\")) (Has (L "str")) (Some (DV (VStr (L "x"))))));
-    (* prose with a form feed: re-flowed *)
+  [ (* prose with a form feed: re-flowed *)
     (lw_inline, lw_ir (mkG (Has (L "a" ++ [ch 12] ++ L "b")) (Has (L "str")) (Some (DV (VStr (L "x"))))));
     (* a ReST token inside a type that is written into the docstring *)
     (lw_doctyp, lw_ir (mkG (Has (L "the a.")) (Has (L "Literal[':type']")) (Some (DV VNone))));
@@ -141,6 +139,12 @@ Lemma C03_doc_link_witnesses_lemma :
                      && negb (doc_link_b 100 (fst oi) (snd oi))) link_witnesses = true.
 Proof. vm_compute. reflexivity. Qed.
 
+(* regression point of the /repo fix of pure_utils.multiline: prose ending in a backslash used to lose it *)
+Lemma C03_trailing_backslash_regression_lemma :
+  guard_C03 lw_inline (lw_ir (mkG (Has (L "dir\")) (Has (L "str")) (Some (DV (VStr (L "x")))))) = true
+  /\ doc_link_b 100 lw_inline (lw_ir (mkG (Has (L "dir\")) (Has (L "str")) (Some (DV (VStr (L "x")))))) = true.
+Proof. vm_compute. split; reflexivity. Qed.
+
 (* hence the link does NOT hold on the whole guard: the side condition is not an artefact of the proof *)
 Lemma C03_doc_link_refuted_lemma :
   ~ (forall w o i, guard_C03 o i = true ->
@@ -148,9 +152,9 @@ Lemma C03_doc_link_refuted_lemma :
                       /\ doc_agrees o i d = true).
 Proof.
   intros H.
-  destruct (H 100 lw_inline (lw_ir (mkG (Has (L "dir\")) (Has (L "str")) (Some (DV (VStr (L "x"))))))) as [text [d [Ht [Hd Ha]]]];
+  destruct (H 100 lw_inline (lw_ir (mkG (Has (L "a" ++ [ch 12] ++ L "b")) (Has (L "str")) (Some (DV (VStr (L "x"))))))) as [text [d [Ht [Hd Ha]]]];
     [vm_compute; reflexivity|].
-  assert (Hb : doc_link_b 100 lw_inline (lw_ir (mkG (Has (L "dir\")) (Has (L "str")) (Some (DV (VStr (L "x")))))) = true).
+  assert (Hb : doc_link_b 100 lw_inline (lw_ir (mkG (Has (L "a" ++ [ch 12] ++ L "b")) (Has (L "str")) (Some (DV (VStr (L "x")))))) = true).
   { unfold doc_link_b. rewrite Ht, Hd. exact Ha. }
   vm_compute in Hb. discriminate.
 Qed.
